@@ -121,6 +121,8 @@ func setRequestHeaderValue(r *http.Request, name string, val value.Value) {
 	}
 
 	if strings.EqualFold(name, "cookie") {
+		// Replace the cookie of the same name, otherwise the former value would still be the one that is read
+		removeCookieByName(r, key)
 		c := http.CreateCookie(key, val.String())
 		r.AddCookie(c)
 		return
